@@ -26,6 +26,8 @@ enum Ep {
     RotateBypass,
     /// bypass rotation authorised by an older, still retained signer set
     RotateBypassOld,
+    /// a rotation WITHOUT bypass before the minimum delay has elapsed: refused for everyone
+    RotateEarlyNoBypass,
     CollectFees,
     Refund,
     AddOperator,
@@ -89,7 +91,7 @@ impl C06 {
     fn eps(&self, kind: usize) -> Vec<Ep> {
         let mut v = vec![Ep::TransferOwnership(2), Ep::TransferOwnership(0), Ep::Upgrade, Ep::Migrate];
         match kind {
-            0 => v.extend([Ep::TransferOperatorship(2), Ep::TransferOperatorship(1), Ep::RotateBypass, Ep::RotateBypassOld]),
+            0 => v.extend([Ep::TransferOperatorship(2), Ep::TransferOperatorship(1), Ep::RotateBypass, Ep::RotateBypassOld, Ep::RotateEarlyNoBypass]),
             1 => v.extend([Ep::CollectFees, Ep::Refund]),
             2 => v.extend([Ep::AddOperator, Ep::RemoveOperator]),
             3 => v.extend([Ep::SetTrusted, Ep::RemoveTrusted]),
@@ -101,7 +103,11 @@ impl C06 {
     fn register(&self, w: &World, kind: usize, p: &[Address], keys: &Keys, asset: &Address) -> Address {
         let env = &w.env;
         match kind {
-            0 => register_gateway(w, None, &p[0], &p[1], &DOMAIN, 0, 5, &[pool(0).raw(keys)]),
+            0 => {
+                // deployed at t = 1e6 with a minimum rotation delay of 1e5 s: only the operator's bypass can rotate
+                w.set_time(1_000_000);
+                register_gateway(w, None, &p[0], &p[1], &DOMAIN, 100_000, 5, &[pool(0).raw(keys)])
+            }
             1 => {
                 let g = env.register(axelar_gas_service::AxelarGasService, (p[0].clone(), p[1].clone()));
                 let c = w.call(asset, "mint", &[g.to_val(), w.v(4i128)], Auth::Setup);
@@ -131,6 +137,11 @@ impl C06 {
             Ep::TransferOperatorship(t) => ("transfer_operatorship", vec![p[t].to_val()]),
             Ep::Upgrade => ("upgrade", vec![to_val(env, &sbytes(&sha256(b"")))]),
             Ep::Migrate => ("migrate", vec![Val::VOID.to_val()]),
+            Ep::RotateEarlyNoBypass => {
+                let next = pool(m.epoch).raw(&ctx.keys);
+                let proof = honest_proof(&ctx.keys, &pool(m.epoch - 1), &DOMAIN, &next.rotation_data_hash());
+                ("rotate_signers", vec![to_val(env, &next.scval()), to_val(env, &proof), w.v(false)])
+            }
             Ep::RotateBypass | Ep::RotateBypassOld => {
                 let next = pool(m.epoch).raw(&ctx.keys);
                 let signer = if ep == Ep::RotateBypassOld { m.epoch - 2 } else { m.epoch - 1 };
@@ -157,6 +168,7 @@ impl C06 {
             Ep::Migrate => (m.owner, m.window),
             Ep::TransferOperatorship(_) => (m.operator, true),
             Ep::RotateBypass | Ep::RotateBypassOld => (m.operator, true),
+            Ep::RotateEarlyNoBypass => (m.operator, false),
             Ep::CollectFees | Ep::Refund => (1, true),
             Ep::AddOperator | Ep::SetTrusted => (m.owner, !m.flag),
             Ep::RemoveOperator | Ep::RemoveTrusted => (m.owner, m.flag),
@@ -276,6 +288,7 @@ impl Scenario for C06 {
             Ep::Upgrade => m.window = true,
             Ep::Migrate => m.window = false,
             Ep::RotateBypass | Ep::RotateBypassOld => { m.budget -= 1; m.epoch += 1; }
+            Ep::RotateEarlyNoBypass => {}
             Ep::CollectFees | Ep::Refund | Ep::Mint => m.budget -= 1,
             Ep::AddOperator | Ep::SetTrusted => m.flag = true,
             Ep::RemoveOperator | Ep::RemoveTrusted => m.flag = false,
@@ -328,7 +341,7 @@ fn main() {
         let mut o = Opts::new(tier, if tier == "thorough" { 14 } else { 9 });
         o.min_depth = 4;
         o.xcheck = tier == "thorough";
-        o.rule = "per contract (gateway, gas service, operators, ITS, interchain token): every administrative entry point (ownership / operatorship transfer to a successor, to self and back; upgrade; migrate; operator-bypass rotation with a proof from the latest and from an older retained set; collect_fees; refund; add/remove operator; set/remove trusted chain; add/remove minter; owner mint; set_admin) x every candidate authoriser {initial owner, initial operator/collector, successor/beneficiary, stranger, nobody, the current holder signing altered arguments, the current holder authorising the same call on a twin contract}; all histories to fixpoint (payouts / mints / rotations bounded to 3); role queries and the affected configuration compared after every new state".into();
+        o.rule = "per contract (gateway, gas service, operators, ITS, interchain token): every administrative entry point (ownership / operatorship transfer to a successor, to self and back; upgrade; migrate; operator-bypass rotation with a proof from the latest and from an older retained set; a non-bypass rotation before the minimum delay (refused for every authoriser); collect_fees; refund; add/remove operator; set/remove trusted chain; add/remove minter; owner mint; set_admin) x every candidate authoriser {initial owner, initial operator/collector, successor/beneficiary, stranger, nobody, the current holder signing altered arguments, the current holder authorising the same call on a twin contract}; all histories to fixpoint (payouts / mints / rotations bounded to 3); role queries and the affected configuration compared after every new state".into();
         (C06, o)
     });
 }
